@@ -216,6 +216,11 @@ pub fn gather_elements<T: Copy + Default + Send + Sync + std::fmt::Debug>(
         }
     }
 
+    // If the gathered axis is empty, every index is out of range.
+    if input.size(axis) == 0 && !indices.is_empty() {
+        return Err(OpError::InvalidValue("Entry in `indices` is out of range"));
+    }
+
     // Trim the non-axis dimensions of the input to match indices, so that
     // we iterate over matching 1D lanes.
     let slice_ranges: Vec<_> = (0..input.ndim())
